@@ -27,6 +27,7 @@ def jobs():
         jobs_keyfile.register_wrappers(_JOBS)
         jobs_keyfile.register_t1(_JOBS)
         jobs_keyfile.register_t1b(_JOBS)
+        jobs_keyfile.register_setbool(_JOBS)
         from . import jobs_parser
         jobs_parser.register(_JOBS)
         from . import jobs_merge
